@@ -260,7 +260,7 @@ def check(ctx):
     sreq_elems, smeta = [], []
     for _ in range(200 if ctx.tier == "quick" else 3000):
         e = [g.r.uniform(-1, 1), g.r.uniform(0, 0.1), g.r.uniform(0, 1), g.r.uniform(-0.9, 0.9), g.r.uniform(-0.5, 0.5),
-             g.r.uniform(0.01, 2)]
+             g.choice([g.r.uniform(0.01, 2), g.r.uniform(0.01, 2), 0.0, -g.r.uniform(0.01, 2)])]
         k_, a_, b_, rho, m_, sg = e
         if g.chance(0.5):
             got = float(fnl.svi_variance(torch.tensor(k_, dtype=torch.float64), a_, b_, rho, m_, sg))
